@@ -74,6 +74,13 @@ CHECKS = {
         "text": "Every test line carries a monotone tracker witness (false until the line has been applied, true ever after). Inside every user foreground and background handler the witness of the handler's own line and of the next line is sampled; TLC checks AppliedBeforeHandlers (fg: exactly line k, bg: at least line k) on every recorded event, with the internal phase delayed by a hook so that a too-early handler is caught deterministically. The design-level model proves the same predicate and fails when the background dispatch is spawned before the internal phase.",
         "note": MC_NOTE + " The recorded executions sample real schedules (GOMAXPROCS 1..16, lingering handlers, a delayed internal phase); they are not enumerated.",
     },
+    "C15": {
+        "engine": "Dispatch.tla", "level": "model_checking", "design_ref": "7 (C15)",
+        "technique": "storage rule of Dispatch.tla (private argument array and tag map per invocation, equal to the parsed event) evaluated by TLC on records taken inside real handlers of all three sets (trace validation); handlers scribble over everything",
+        "text": "Schedule-independent detection: every invocation logs the address of its argument array and of its tag map plus the content on entry, then overwrites all of it; "
+                "TLC checks pairwise distinct identities and equality with the parsed event for every dispatched line (0..15 arguments, no tags, empty tag sections, several tags).",
+        "note": MC_NOTE + " No exhaustive model run of its own: the design-level rule is a one-step predicate; the states counted are those of the trace validation.",
+    },
     "C16": {
         "engine": "Phases.tla", "level": "model_checking", "design_ref": "7 (C16)",
         "technique": "TLA+ model of the event loop phases (internal, background spawn, foreground, CONNECTED inside 001, disconnect at any moment, handler outcomes return/panic/block); TLC exhaustive safety + liveness, three defect variants must fail; the same predicates evaluated by TLC on handler events recorded from the real client (trace validation)",
